@@ -17,6 +17,9 @@ def cases(tier, seed, args):
     rng = np.random.default_rng(seed + 4711)
     q = tier == 'quick'
     out = []
+    what = args.get('what')
+    if what:
+        return [c for c in cases(tier, seed, {}) if (c['t'] == 'dirichlet') == (what == 'dirichlet')]
     alphas = [[1, 1], [3, 2], [2, 1], [5, 1], [100, 1], [1, 0]]
     for i in range(36 if q else 240):
         out.append(dict(t='dirichlet', K=int(rng.integers(2, 5)), T=int(rng.integers(1, 9)), alpha=alphas[i % 6],
